@@ -202,11 +202,11 @@ Section Sound.
 
   (* the loop-head invariant: every state after n iterations (guard true or false, frozen or not)
      is typed by the environment the analysis converged to *)
-  Theorem loop_env_sound p T :
+  Lemma loop_env_sound_atyped p T :
     loop_env p [] = Some T ->
-    forall n s0 s, supp (run law p n s0) s -> typed T s.
+    forall n s0 s, supp (run law p n s0) s -> atyped T s.
   Proof.
-    unfold loop_env. cbn [map]. intros H n s0 s Hs. apply atyped_typed.
+    unfold loop_env. cbn [map]. intros H n s0 s Hs.
     destruct (afix_sound _ _ _ _ H) as [H1 H2].
     revert s Hs. induction n as [|n IHn]; intros s Hs; cbn [run] in Hs.
     - apply H1. eapply (proj1 (proj2 exec_sound)); [|exact Hs]. intros x vs [].
@@ -215,6 +215,11 @@ Section Sound.
       + eapply H2; eauto.
       + apply supp_ret in Hs. subst. apply IHn. exact Hs1.
   Qed.
+
+  Theorem loop_env_sound p T :
+    loop_env p [] = Some T ->
+    forall n s0 s, supp (run law p n s0) s -> typed T s.
+  Proof. intros H n s0 s Hs. apply atyped_typed. eapply loop_env_sound_atyped; eauto. Qed.
 End Sound.
 
 (* README restriction 1 for the guard of an in-class program: the atoms of the guard only ever see
@@ -244,18 +249,10 @@ Theorem in_class_guard_finitely_valued law p :
   forall a b, In (a, b) (cond_atoms (p_guard p)) ->
   exists vs : list Qc, forall n s0 s, supp (run law p n s0) s -> In (eval (ESub a b) s) vs.
 Proof.
-  intros H a b Hin. apply in_class_unfold in H. destruct H as (_ & _ & T & HT & Hc & _).
+  intros H a b Hin. destruct (proj1 (in_class_unfold p []) H) as (_ & _ & T & HT & Hc & _).
   unfold conditions_finite in Hc. apply andb_true_iff in Hc. destruct Hc as [Hg _].
   destruct (cond_ok_atoms T _ Hg a b Hin) as [vs Hvs].
   exists vs. intros n s0 s Hs.
   apply (expr_vals_sound T s (ESub a b) vs); [|exact Hvs].
-  (* atyped, not only typed, is what loop_env_sound establishes internally *)
-  unfold loop_env in HT. cbn [map] in HT.
-  destruct (afix_sound law _ _ _ _ HT) as [H1 H2].
-  revert s Hs. induction n as [|n IHn]; intros s Hs; cbn [run] in Hs.
-  - apply H1. eapply (proj1 (proj2 (exec_sound law))); [|exact Hs]. intros x ws [].
-  - apply supp_bind in Hs. destruct Hs as (s1 & Hs1 & Hs).
-    unfold iter in Hs. destruct (holds (p_guard p) s1).
-    + eapply H2; eauto.
-    + apply supp_ret in Hs. subst. apply IHn. exact Hs1.
+  exact (loop_env_sound_atyped law p T HT n s0 s Hs).
 Qed.
